@@ -281,9 +281,19 @@ func randRoute(cfg *hx.Config) []byte {
 
 func randPayload(cfg *hx.Config) []byte {
 	r := cfg.Rng
-	switch r.Intn(6) {
+	switch r.Intn(8) {
 	case 0:
 		return []byte{}
+	case 6, 7: // a payload that is itself a complete zlib stream (must travel untouched)
+		inner := randBytes(cfg, r.Intn(30))
+		if r.Intn(2) == 0 {
+			inner = []byte("hello pomelo hello pomelo hello pomelo hello pomelo")
+		}
+		d, err := compression.DeflateData(inner)
+		if err != nil {
+			panic(err)
+		}
+		return d
 	case 1: // compressible
 		n := 20 + r.Intn(300)
 		b := make([]byte, n)
@@ -321,6 +331,9 @@ func encMsgOp(cfg *hx.Config, tags map[string]bool) (hx.T, []byte) {
 		if len(d) < len(data) {
 			tags["gzip-used"] = true
 		}
+	}
+	if compression.IsCompressed(data) {
+		tags["payload-is-zlib-stream"] = true
 	}
 	id := randID(cfg)
 	m := hx.C("mkMsg", typ, id, ints(route), ints(data), r.Intn(3) == 0)
